@@ -18,7 +18,7 @@ CLAIMS = {
  'C19': ("exploration", "3.19", "One block object per run with random flags, submitted through async/sync/group_async/barrier_async/direct invocation, with a waiter, notifiers, cancellers (before submit, while queued behind a held item, at a random instant, from its own body) and testcancel pollers on separate threads under seeded schedules."),
  'C12': ("exploration", "3.12", "Narrow claim: dispatch_time / dispatch_walltime are compared with a 128-bit reference model at simulated clock positions (ordinary, near zero, near the 2^62 limit) for boundary-biased bases and deltas, and elapsed results are fed to the real semaphore/group wait paths, which must return without simulated time passing. For explicit bases this is seeded input sampling that merely runs inside the simulator; the clock-dependent cases (NOW, WALLTIME_NOW, MONOTONICTIME_NOW, NULL timespec) and the no-block clause are what the clock seam contributes."),
  'C16': ("exploration", "3.16", "Timer, data, read and write sources (pipes and socketpairs, with peer hang-up and a sibling source on the other direction of the same descriptor) cancelled before activation, from the handler, from an item on the serial target queue, from other threads, twice, and with cancel_and_wait, under seeded schedules and ASan: no handler after an on-queue cancel, at most one after an off-queue cancel, cancel handler exactly once on the target queue after the last handler and after the epoll registration is gone, no epoll_ctl on the closed descriptor."),
- 'C14': ("exploration", "3.14", "Stream channels over real pipes and socketpairs with a simulated peer (chunked arrival, pauses, EOF or no EOF), 1-6 operations among read/write/barrier/water marks/interval/close/STOP, under seeded schedules and injected short counts, EINTR and EAGAIN at the read/write seam, plain and ASan builds: delivered bytes are exactly the stream positions consumed, per-invocation size <= high water, write accounting (reached descriptor + reported unwritten == submitted), done exactly once and last, submission-order completion, barrier judged at the I/O seam, ECANCELED after close, cleanup handler once and last."),
+ 'C14': ("fault_enumeration", "3.14", "Two parts. Enumeration: for every generated program whose fault-free run is clean, each single fault kind (short count, EINTR, EAGAIN, EIO) is forced at every intercepted read/write call index of that run. Exploration: stream channels over real pipes and socketpairs with a simulated peer (chunked arrival, pauses, EOF or no EOF), 1-6 operations among read/write/barrier/water marks/interval/close/STOP, under seeded schedules and injected short counts, EINTR and EAGAIN at the read/write seam, plain and ASan builds: delivered bytes are exactly the stream positions consumed, per-invocation size <= high water, write accounting (reached descriptor + reported unwritten == submitted), done exactly once and last, submission-order completion, barrier judged at the I/O seam, ECANCELED after close, cleanup handler once and last."),
  'C13': ("exploration", "3.13", "Lifetime half of the property: 2-4 threads concurrently create, concatenate, slice, map (including concurrent create_map of shared fragmented objects), copy_region, apply, retain and release data objects whose buffers have default, free() and custom-block destructors on serial/concurrent/global queues, under seeded schedules, plain and ASan. Every observation through the public API is compared with a byte-string model (so a buffer destroyed early shows up as wrong bytes or an ASan report); each custom destructor runs exactly once, on its queue, within 60 simulated s of the last release. The byte-string algebra itself has no schedule in it and only serves as the oracle."),
  'C17': ("exploration", "3.17", "Queues (context, finalizer, specific keys with destructors, target released by its creator), groups released while non-empty and timer/data sources released with events in flight; every object is used through 2-4 references held by different client threads that drop them at adversarial moments (right after an async, between another holder's suspend and resume, from inside the object's own last item). Strategy mix biased to injected stalls and PCT; plain and ASan builds. Oracle: no ASan report, finalizer exactly once on the target queue with the current context after the last item and the last release, key destructors exactly once, memory returned (__sanitizer_get_ownership)."),
  'C18': ("exploration", "3.18", "Context half: random hierarchies with queue-specific keys at random levels; items submitted by async, sync, barrier, async_and_wait, apply and nested submissions check dispatch_get_specific / dispatch_queue_get_specific against the nearest-in-chain model, dispatch_assert_queue on every queue of the chain (and of the submitting item for dispatch_sync) and dispatch_assert_queue_not on queues outside it, under seeded schedules (the same submission takes the fast path, the waiter hand-off or the redirect depending on the interleaving); 5% of runs end with an assertion that must crash. Attribute / global-queue half: a slice of the attribute table per run built in two constructor orders (pointer identity, label, clamped QoS class, relative priority, initial activity) and every documented and some undefined identifiers/flags of dispatch_get_global_queue; this half is plain enumeration, not simulation, and is labelled so in the evidence."),
